@@ -300,33 +300,36 @@ def with_hydrogens(recs, hydrogens, moved=None):
 
 def identities_unique(recs):
     """True if, within a model, no two separate residues share the identity (chain, number,
-    insertion code). Runs are tracked per record type: a residue may be interrupted by records
-    of the other type (an ion written between its atoms)."""
+    insertion code). An ATOM residue may be interrupted by HETATM records (an ion written between
+    its atoms); a HETATM residue must be contiguous."""
     seen = set()
-    last = {}
-    for r in recs:
-        if r.raw is not None:
-            if r.tag == "MODEL ":
-                seen, last = set(), {}
-            continue
-        k = (r.chain, r.resnum, r.icode)
-        if last.get(r.tag) != k:
-            if (r.tag, k) in seen:
-                return False
-            seen.add((r.tag, k))
-            last[r.tag] = k
-        other = "HETATM" if r.tag == "ATOM  " else "ATOM  "
-        if (other, k) in seen and last.get(other) != k and False:
-            return False
-    # the same identity used by an ATOM residue and a HETATM residue is ambiguous too
+    last_atom = None
+    prev = None
     ids = {}
     model = 0
     for r in recs:
         if r.raw is not None:
             if r.tag == "MODEL ":
+                seen, last_atom, prev = set(), None, None
                 model += 1
+            elif r.tag == "TER   ":
+                last_atom, prev = None, None
             continue
-        ids.setdefault((model, r.chain, r.resnum, r.icode), set()).add((r.tag, r.resn))
+        k = (r.chain, r.resnum, r.icode)
+        if r.tag == "ATOM  ":
+            if k != last_atom:
+                if (r.tag, k) in seen:
+                    return False
+                seen.add((r.tag, k))
+                last_atom = k
+        else:
+            if prev != (r.tag, k):
+                if (r.tag, k) in seen:
+                    return False
+                seen.add((r.tag, k))
+        prev = (r.tag, k)
+        # the same identity used by an ATOM residue and a HETATM residue (or by two residue names)
+        ids.setdefault((model, k), set()).add((r.tag, r.resn))
     return all(len(v) == 1 for v in ids.values())
 
 
